@@ -677,6 +677,26 @@ class Integer(Dimension):
                 )
                 self.transformer = LogN(self.base)
 
+    def rvs(self, n_samples=1, random_state=None):
+        """Draw random samples.
+
+        Args:
+            n_samples : int or None
+                The number of samples to be drawn.
+            random_state : int, RandomState instance, or None (default)
+                Set random state to something other than None for reproducible
+                results.
+        """
+        if self.transform_ == "normalize" and self.prior == "uniform":
+            # Rounding a uniform draw of the normalized interval [0, 1] gives each of the two
+            # bounds half the probability of the other values: draw the integers themselves.
+            rng = check_random_state(random_state)
+            samples = ss.randint(self.low, self.high + 1).rvs(
+                size=n_samples, random_state=rng
+            )
+            return self.inverse_transform(self.transform(samples))
+        return super().rvs(n_samples=n_samples, random_state=random_state)
+
     def __eq__(self, other):
         """Test if the dimension is equal to an other by testing if types and bounds are all equal."""
         return (
@@ -841,13 +861,11 @@ class Categorical(Dimension):
             else:
                 self.transformer = Identity()
             self.transformer.fit(self.categories)
-        if transform == "normalize":
-            self._rvs = _uniform_inclusive(0.0, 1.0)
-        else:
-            # XXX check that sum(prior) == 1
-            self._rvs = ss.rv_discrete(
-                values=(range(len(self.categories)), self.prior_)
-            )
+        # The index of a category is drawn, whatever the transform: rounding a uniform draw of the
+        # normalized interval would not follow the prior and would go through the label encoder
+        # (which turns categories of mixed types into strings).
+        # XXX check that sum(prior) == 1
+        self._rvs = ss.rv_discrete(values=(range(len(self.categories)), self.prior_))
 
     def __eq__(self, other):
         """Test if the dimension is equal to an other by checking if types, categories and priors are equal."""
@@ -887,11 +905,10 @@ class Categorical(Dimension):
         choices = self._rvs.rvs(size=n_samples, random_state=random_state)
 
         if isinstance(choices, numbers.Integral):
+            if self.transform_ == "normalize":
+                # a normalized dimension has always answered a single draw with a sequence
+                return [self.categories[choices]]
             return self.categories[choices]
-        elif self.transform_ == "normalize" and isinstance(choices, float):
-            return self.inverse_transform([(choices)])
-        elif self.transform_ == "normalize":
-            return self.inverse_transform(list(choices))
         else:
             return [self.categories[c] for c in choices]
 
